@@ -71,6 +71,17 @@ def cross_depth_sb_pipe_preset(contents=("grad", "noise"), presets=range(0, 9)):
     return cases
 
 
+def big_tiles(thorough=False):
+    """multi-tile pictures whose tiles are large when compressed (noise, low qp): tile-size field widths of 2, 3 and 4 bytes"""
+    cs = []
+    sizes = ((256, 192), (512, 256)) + (((1024, 256),) if thorough else ())
+    for (w, h) in sizes:
+        for qp in (0, 5, 20):
+            for tiles in ({"tile_columns": 1}, {"tile_rows": 1}, {"tile_columns": 1, "tile_rows": 1}):
+                cs.append(mk("bigtiles:%s,qp=%d/%dx%d/noise" % (",".join("%s=%s" % kv for kv in tiles.items()), qp, w, h), w, h, 2, "noise", qp=qp, **tiles))
+    return cs
+
+
 def not_mult64(a):
     return int(a.get("w", 64)) % 64 != 0 or int(a.get("h", 64)) % 64 != 0
 
